@@ -4,6 +4,7 @@ mod compile;
 mod engine;
 mod findings;
 mod gen;
+mod isolate;
 mod jsworker;
 mod model;
 mod oracle;
@@ -52,6 +53,9 @@ fn main() {
             }
             let code = checks::run(&prop, tier, seed);
             std::process::exit(code);
+        }
+        "isolate-worker" => {
+            isolate::worker_main();
         }
         "replay" => {
             if args.len() < 3 {
